@@ -111,18 +111,31 @@ def main():
     ap.add_argument('--keep', action='store_true')
     ap.add_argument('--skip-tests', action='store_true')
     ap.add_argument('--jobs', type=int, default=2)
+    ap.add_argument('--results', help='write a markdown table of the outcomes here')
     args = ap.parse_args()
     muts = discover(args.only + args.names)
     if not muts:
         print('no mutants selected')
         return 2
     bad = 0
+    rows = []
     with concurrent.futures.ThreadPoolExecutor(args.jobs) as ex:
-        for r in ex.map(lambda m: run_one(m, args.tier, args.keep, args.skip_tests), muts):
+        for m, r in zip(muts, ex.map(lambda m: run_one(m, args.tier, args.keep, args.skip_tests), muts)):
             print('%-12s %-45s %s' % (r['status'], r['name'], r['detail'][:700]))
             sys.stdout.flush()
+            rows.append((m, r))
             if r['status'] not in ('CAUGHT', 'OK-SILENT'):
                 bad += 1
+    if args.results:
+        import re
+        with open(args.results, 'w') as f:
+            f.write('# Self-test results (%s tier)\n\nGenerated by `selftest/run_mutants.py --results`. CAUGHT = the check exited 1 with a VIOLATION '
+                    'line on the changed copy; OK-SILENT = a behaviour/property-preserving change left the check silent (exit 0).\n\n'
+                    '| change | checks run | outcome | mechanisms reported |\n|---|---|---|---|\n' % args.tier)
+            for m, r in rows:
+                mechs = sorted(set(re.findall(r'mechanism: (\S+)', r['detail'])))
+                f.write('| %s | %s | %s | %s |\n' % (m['name'], ' '.join(m['props']), r['status'], '<br>'.join(mechs[:4]) or '-'))
+            f.write('\n%d changes, %d not as required\n' % (len(muts), bad))
     print('%d mutants, %d not as required' % (len(muts), bad))
     return 1 if bad else 0
 
